@@ -81,6 +81,21 @@ Theorem C11_sort_error :
 Proof. exact (@sort_error). Qed.
 Print Assumptions C11_sort_error.
 
+(* ... and these three facts say everything: whatever list satisfies them IS the result *)
+Theorem C11_sort_characterised :
+  forall (I R K : Type) (ieqb : I -> I -> bool), (forall a b, ieqb a b = true <-> a = b) ->
+  forall kleb : K -> K -> bool,
+    (forall a b, kleb a b = true \/ kleb b a = true) ->
+    (forall a b c, kleb a b = true -> kleb b c = true -> kleb a c = true) ->
+  forall (key : R -> option K) (desc : bool) (d d' d'' : list (I * R)),
+    NoDup (okeys d) -> sort_rows ieqb kleb key desc d = Ok d' ->
+    Permutation d'' d ->
+    StronglySorted (item_le kleb key desc) d'' ->
+    (forall k, filter (has_key kleb key k) d'' = filter (has_key kleb key k) d) ->
+    d'' = d'.
+Proof. exact (@sort_characterised). Qed.
+Print Assumptions C11_sort_characterised.
+
 (* descending is the stable sort by the reversed order, NOT the reversed ascending sort *)
 Theorem C11_sort_desc_is_not_reversed_sort :
   exists d : list (N * N),
@@ -116,6 +131,16 @@ Theorem C11_sources_untouched :
     oget str_eqb (reg st') name = oget str_eqb (reg st) name.
 Proof. exact (@sources_untouched). Qed.
 Print Assumptions C11_sources_untouched.
+
+Theorem C11_untouched_over_chains :
+  forall (I R K : Type) (ieqb : I -> I -> bool) (kleb : K -> K -> bool) (rid : R -> I)
+         (raw : str -> bool -> option (list R)) (model_defined : str -> bool)
+         (rows : list (@irow R K)) (st st' : @state I R) (name : str),
+    run ieqb kleb rid raw model_defined rows st = Ok st' ->
+    Forall (fun r => target r <> name) rows ->
+    oget str_eqb (reg st') name = oget str_eqb (reg st) name.
+Proof. exact (@run_untouched). Qed.
+Print Assumptions C11_untouched_over_chains.
 
 Theorem C11_registry_names :
   forall (I R K : Type) (ieqb : I -> I -> bool) (kleb : K -> K -> bool) (rid : R -> I)
